@@ -158,6 +158,19 @@ CHECKS = {
         note="Fault points are function entries (PY_START), so faults between two statements of one function are not "
              "enumerated. Fault enumeration is complete for the (function, k) pairs of the listed functions in quick tier "
              "for k in {1, 2, last} and for k <= 6 and last in thorough tier."),
+    "C11": dict(
+        technique="runtime monitor with reference-model oracle: gradients observed after backward through the real "
+                  "quantized modules compared with float64 autograd on the float twin (straight-through estimators), plus "
+                  "staleness checks around in-place weight updates",
+        level="exploration", ref="4/C11",
+        text="Quantized Linear/Conv2d modules (all weight qtypes, activations on/off, three dtypes, frozen or not) are run "
+             "forward and backward with random, one-hot, non-contiguous, stride-0 and zero upstream gradients on inputs of "
+             "rank 1-4; x.grad, weight.grad and bias.grad must match float64 autograd on the twin built from the dequantized "
+             "weight and the observed quantized input within the contraction bound; frozen weights and scales must have no "
+             "gradient; after each in-place weight update the quantized weight of the next forward must be within one step "
+             "of the new float weight.",
+        note="The upstream gradient is applied to out.dequantize() when activations are quantized. Gradient tolerances "
+             "observed on the unchanged tree stay below 0.11 of the bound."),
 }
 
 PLANNED = {}
